@@ -1035,6 +1035,17 @@ class Exec:
                 s2.pc.append(z3.Not(has))
                 out.append((s2, 'none', None))
             return out
+        if k == 'from_fn':      # core::iter::from_fn(f): next() = f()
+            cc = st.new_cell(r['clo']) if not isinstance(r['clo'], Ref) else r['clo'].cell
+            out = []
+            for (s1, k2, v2) in s.call_closure2(st, cc, [], where):
+                if k2 != 'ret':
+                    out.append((s1, 'unwind', None))
+                elif v2.variant == 'Some':
+                    out.append((s1, 'some', v2.fields[0]))
+                else:
+                    out.append((s1, 'none', None))
+            return out
         if k == 'take':
             rem = r['n']
             out = []
@@ -1517,6 +1528,29 @@ class Exec:
                             out.append((s2, 'unwind', None))
         return out
 
+    def try_for_each(s, st, itv, clo, where):
+        """Iterator::try_for_each with a closure returning Result / Option: stops at the first Err / None (bounded unrolling)"""
+        ic, cc = st.new_cell(itv), st.new_cell(clo)
+        out, work = [], [(st, 0)]
+        while work:
+            st, k = work.pop()
+            for (s1, kk, v) in s.iter_next(st, ic, (), where):
+                if kk == 'none':
+                    out.append((s1, 'ret', Enum('Ok', {0: UNIT})))
+                elif kk == 'unwind':
+                    out.append((s1, 'unwind', None))
+                else:
+                    if k >= s.loop_cap:
+                        raise Inconclusive('unwinding assertion: more than %d iterations feasible at %s' % (s.loop_cap, where))
+                    for (s2, k2, r2) in s.call_closure2(s1, cc, [v], where):
+                        if k2 != 'ret':
+                            out.append((s2, 'unwind', None))
+                        elif isinstance(r2, Enum) and r2.variant in ('Err', 'None', 'Break'):
+                            out.append((s2, 'ret', r2))
+                        else:
+                            work.append((s2, k + 1))
+        return out
+
     def call_closure2(s, st, cc, args, where):
         clo = st.get(cc, ())
         if isinstance(clo, dict) and clo.get('__builtin__') == 'vec_push':
@@ -1699,6 +1733,19 @@ class Exec:
         if mwr and isinstance(args[0], Ref):      # overwrite without dropping the old value
             st.set(args[0].cell, args[0].path, args[1])
             return R(UNIT)
+        if re.match(r'^(?:core::)?iter::from_fn::<', c):
+            return R({'kind': 'from_fn', 'clo': args[0]})
+        mtc = re.match(r'^(?:core::)?(?:mem::)?transmute_copy::<(.*)>$', c)
+        if mtc:
+            a = args[0]
+            if re.fullmatch(r'GenericArray<MaybeUninit<T>, N>, GenericArray<T, N>', mtc.group(1)):      # = ptr::read(.. as *const MaybeUninit<GenericArray<T, N>>).assume_init()
+                arr = a.arr if isinstance(a, (ArrRef, ElemPtr)) else st.get(a.cell, a.path)
+                s.require(st, z3.Implies(ULT(s.J, arr.len), s.stat(st, arr) == LIVE), 'array with an uninitialised / dead slot released as complete', where)
+                return R(arr)
+            if re.fullmatch(r'(T|B|U), \1', mtc.group(1)) and isinstance(a, ElemPtr):      # bitwise move-out of one element
+                s.ev_move_out(st, a.arr, a.idx, where)
+                return R(Elem(a.arr, a.idx))
+            raise NotImplementedError('transmute_copy::<%s>' % mtc.group(1))
         mt = re.match(r'^(?:core::)?bool::<impl bool>::(then_some|then)::<', c)
         if mt:
             cond = args[0]
@@ -2112,6 +2159,8 @@ class Exec:
                 raise NotImplementedError('as_slice of a non-slice iterator')
             return R(Slice(it['arr'], it['pos'], it['end']))
         args = [s.as_iter(a) for a in args] if re.search(r' as (Iterator|IntoIterator|DoubleEndedIterator)>::', c) else args
+        if re.search(r' as Iterator>::try_for_each::<', c):
+            return s.try_for_each(st, args[0], args[1], where)
         if re.search(r' as Iterator>::by_ref$', c):
             return R(args[0])
         if re.search(r' as Iterator>::rev$', c):
